@@ -67,3 +67,38 @@ func Harness_C13_edgequery_history() {
 	vr.Assert("FindEdges gives the same answer whatever was called before", vrSameResults(r1, r2))
 	vr.Reach("end")
 }
+
+// Re-using a query object after the index changed (with EdgeQuery.Reset, the documented
+// way): answers equal those of a fresh query on the current index.  The index is large
+// enough (36 + 4 edges on several faces) for the optimized path and its cached covering.
+func Harness_C13_edgequery_reuse_after_index_change() {
+	vr.Domain("FPX")
+	vr.Unwind(2000)
+	pv := vrC08Points()
+	idx := NewShapeIndex()
+	idx.Add(&pv)
+	extra := [2]PointVector{
+		{PointFromCoords(-0.2, -1, 0.1), PointFromCoords(-0.25, -1, 0.12)},
+		{PointFromCoords(0.1, 0.2, -1), PointFromCoords(0.15, 0.22, -1)},
+	}
+	mr := vr.Int("maxResults")
+	vr.Assume(vr.And(mr >= 1, mr <= 3))
+	target := NewMinDistanceToPointTarget(PointFromCoords(-0.2, -0.9, 0.15))
+	q := NewClosestEdgeQuery(idx, NewClosestEdgeQueryOptions().MaxResults(mr))
+	added := 0
+	for step := 0; step < 3; step++ {
+		op := vr.Int("op")
+		vr.Assume(vr.And(op >= 0, op <= 1))
+		if op == 0 {
+			fresh := NewClosestEdgeQuery(idx, NewClosestEdgeQueryOptions().MaxResults(mr))
+			vr.Assert("re-used query == fresh query on the current index", vrSameResults(q.FindEdges(target), fresh.FindEdges(target)))
+		} else if added < 2 {
+			idx.Add(&extra[added])
+			added++
+			q.Reset()
+		}
+	}
+	fresh := NewClosestEdgeQuery(idx, NewClosestEdgeQueryOptions().MaxResults(mr))
+	vr.Assert("final: re-used query == fresh query on the current index", vrSameResults(q.FindEdges(target), fresh.FindEdges(target)))
+	vr.Reach("end")
+}
